@@ -289,8 +289,10 @@ def run(chk):
                             {"kind": "op", "text": t}, {"with_pass_off": b}, {"with_pass_on": a, "devs": ds}, sig=sig,
                             module="Opt_Trace", direction="code->spec")
     items = langcheck.corpus(chk.tier, chk.seed)
-    if chk.tier == "quick":
-        items = items[::4]
+    # quick: every 4th program of the quick corpus; thorough: every 3rd of the (20x larger) thorough corpus --
+    # each program is compiled and executed twice (pass on / off)
+    items = items[::4] if chk.tier == "quick" else items[::3]
+    chk.extra["corpus_stride"] = 4 if chk.tier == "quick" else 3
     texts = [(i, G.pr(it["prog"])) for i, it in enumerate(items)]
     jobs = []
     for off in range(0, len(texts), 300):
